@@ -35,6 +35,7 @@ type program struct {
 	Nodes   []progNode
 	Values  map[string]*ref.T // reference value of every named tensor
 	Order   []string          // names in production order (inputs, inits, node outputs)
+	IR      int64             // ir_version of the rendered model (0 = the usual one)
 	Shadow  map[string]bool   // initializers that are also graph inputs
 	nameSeq int
 	r       *gen.R
@@ -116,7 +117,7 @@ func (p *program) addNode(n progNode, outHints ...string) ([]string, bool) {
 
 // Graph renders the program; outputs lists the declared graph outputs.
 func (p *program) Graph(outputs []string) *mon.Graph {
-	g := &mon.Graph{Inputs: p.Inputs, Inits: p.Inits}
+	g := &mon.Graph{Inputs: p.Inputs, Inits: p.Inits, IR: p.IR}
 	for _, n := range p.Nodes {
 		g.Nodes = append(g.Nodes, n.G)
 	}
@@ -749,6 +750,9 @@ func genProgram(r *gen.R, maxNodes int) *program {
 		}
 		p.Order = append(p.Order, name)
 		p.BatchAxis[name] = -1
+	}
+	if r.Chance(0.3) { // what Run computes does not depend on the IR version the file declares
+		p.IR = int64(r.PickInt(1, 2, 3, 4, 6, 8, 9, 10, -1))
 	}
 	palette := make([]string, r.Range(2, 5))
 	for i := range palette {
